@@ -76,6 +76,8 @@ def check(ctx):
                         "no common protocol -> Err(ALPN_ERROR)", [START, "no-overlap-result"])
             ctx.require(R2, any(x.is_("openssl::ssl::select_next_proto") for x in ret.calls), "%s:%s" % (cb.file, cb.line), "the selected protocol is what select_next_proto returned", [START, "selected"])
 
+    tls_version_rule(ctx, R2)
+
     R3 = ctx.rule("R3", "the served key and certificate come from the same from_acme_ext call; check_private_key is called before serving")
     for nm, field, param in (("openssl::ssl::SslContextBuilder::set_private_key", ("acme_common::crypto::openssl_keys::KeyPair", "inner_key"), "param:3"),
                              ("openssl::ssl::SslContextBuilder::set_certificate", ("acme_common::crypto::openssl_certificate::X509Certificate", "inner_cert"), "param:2")):
@@ -204,3 +206,28 @@ def check(ctx):
                     "the signing digest = get_digest(digest option, generated key)", [FAE, "digest"])
     for c_ in fae.calls_to(GEN):
         ctx.require(R5, arg_origins(c_, 0).has_leaf("param:1") and arg_origins(c_, 3).has_leaf("param:2"), c_.where(), "gen_certificate(domain, key, digest, acme_ext) receives from_acme_ext's own arguments", [FAE, "forward"])
+
+
+# openssl crate (documented): mozilla_intermediate / mozilla_intermediate_v5 accept TLS 1.2 and 1.3; mozilla_modern (v4) accepts
+# TLS 1.2(+1.3 when built so); mozilla_modern_v5 accepts TLS 1.3 ONLY. RFC 8737 section 3: the validation connection uses
+# "TLS version 1.2 or higher" — a CA that tops out at 1.2 must be served.
+ACCEPTOR_PROFILES_TLS12 = ("mozilla_intermediate", "mozilla_intermediate_v5", "mozilla_modern")
+VERSION_NARROWING = ("set_min_proto_version", "set_max_proto_version", "set_options", "set_ciphersuites", "set_cipher_list")
+
+
+def tls_version_rule(ctx, rid):
+    """shared by C16 and C20: tacd's acceptor must serve a TLS 1.2 validation client (RFC 8737 section 3)"""
+    prog = ctx.prog
+    st = prog.must_body(START)
+    ctor = [c for c in st.calls if (c.name or "").startswith("openssl::ssl::connector::SslAcceptor::mozilla_") and c.bb in st.live_blocks()]
+    ctx.floor(rid, "SslAcceptor profile constructor in tacd", len(ctor), 1)
+    for c in ctor:
+        prof = c.name.rsplit("::", 1)[1]
+        ctx.require(rid, prof in ACCEPTOR_PROFILES_TLS12, c.where(), "the acceptor profile `%s` accepts TLS 1.2 as RFC 8737 requires (TLS 1.2 or higher)" % prof, [START, "tls-profile"])
+        m = [a for a in c.args]
+        sl = arg_origins(c, 0) if m else None
+        ctx.require(rid, sl is None or any(x.is_("openssl::ssl::SslMethod::tls") for x in sl.calls) or sl.via_any("openssl::ssl::SslMethod::tls"), c.where(),
+                    "… with the version-flexible SslMethod::tls()", [START, "tls-method"])
+    narrow = [c for c in st.calls if c.bb in st.live_blocks() and (c.name or "").startswith("openssl::ssl::SslContextBuilder::") and c.name.rsplit("::", 1)[1] in VERSION_NARROWING]
+    ctx.require(rid, not narrow, narrow[0].where() if narrow else "%s:%s" % (st.file, st.line), "no protocol-version / cipher narrowing on top of the profile (%s)" % [c.name.rsplit("::", 1)[1] for c in narrow],
+                [START, "tls-narrowed"])
